@@ -145,6 +145,14 @@ class C19(F.Check):
                 closed("z_to_point_rejected__" + tag, "bool",
                        "return std::is_constructible<%s, Zero>::value || std::is_convertible<Zero, %s>::value || std::is_assignable<%s&, Zero>::value"
                        " || C19CanEq<%s, Zero>::value || C19CanEq<Zero, %s>::value || C19CanLt<%s, Zero>::value;" % (PT, PT, PT, PT, PT, PT), False, key)
+            # ... and for point units that declare their own origin (Celsius, Fahrenheit, prefixed / scaled forms of them) and Kelvins
+            for pu in ("Celsius", "Fahrenheit", "Milli<Celsius>", "Kelvins", "decltype(Celsius{} / mag<3>())"):
+                PT2 = "QuantityPoint<%s, %s>" % (pu, ct)
+                closed("z_to_point_rejected__%s_%s" % (rtag(ct), pu.replace("<", "_").replace(">", "").replace("{}", "").replace(" ", "").replace("/", "d").replace("(", "").replace(")", "")),
+                       "bool",
+                       "return std::is_constructible<%s, Zero>::value || std::is_convertible<Zero, %s>::value || std::is_assignable<%s&, Zero>::value"
+                       " || C19CanEq<%s, Zero>::value || C19CanEq<Zero, %s>::value || C19CanLt<%s, Zero>::value;" % (PT2, PT2, PT2, PT2, PT2, PT2), False,
+                       {"rep": ct, "point_unit": pu})
             # per rep: ZERO -> R, ZERO -> duration<R>
             keyr = {"rep": ct}
             closed("dur_rep_copyinit__" + rtag(ct), ct, "std::chrono::duration<%s> d = ZERO; return d.count();" % ct, ("zero", ct), keyr)
